@@ -57,6 +57,10 @@ type Quirks struct {
 	// parameter's value even when the stored property is an accessor, and
 	// [[DefineOwnProperty]] validates against the stored (raw) property.
 	ArgumentsKeepMapping bool
+	// PropertyMapLateFilter: defineProperties/create do not fix the list of own
+	// enumerable names of the property map before reading the descriptors
+	// (15.2.3.7 step 3): a name is tested for "still there and enumerable" when its turn comes.
+	PropertyMapLateFilter bool
 	// DescriptorValueLast: ToPropertyDescriptor reads the fields in the order
 	// enumerable, configurable, writable, get, set, value (8.10.5 has value third),
 	// and with a get/set field present it throws before [[Get]] of "value".
